@@ -128,9 +128,13 @@ def run_shard(spec):
             if ("if_contains" in kind or "if_attribute_equal" in kind) and rnd.random() < 0.7:
                 g._numeric_prefix = False
                 q = g.action(0, 0, True) + "/attr_up/" + g.query(0, first=False, max_len=3)
+            elif "if_not_contains(ABC)" in kind and rnd.random() < 0.4:
+                # the attribute is there but false: the condition admits the result
+                g._numeric_prefix = False
+                q = g.action(0, 0, True) + "/attr_false/" + g.query(0, first=False, max_len=3)
             elif "if_not_contains(abc)" in kind and rnd.random() < 0.6:
                 g._numeric_prefix = False
-                q = g.action(0, 0, True) + "/attr_low/" + g.query(0, first=False, max_len=3)
+                q = g.action(0, 0, True) + rnd.choice(["/attr_low/", "/attr_low/", "/attr_false/"]) + g.query(0, first=False, max_len=3)
             elif rnd.random() < 0.1:
                 # results of every built-in kind (each is filed by its own state type)
                 g._numeric_prefix = False
